@@ -18,6 +18,8 @@ package main
 // errors: "err nav" (tree.NavigationError) | "err other"; panics are recovered by main.go.
 
 import (
+	"strconv"
+	"bytes"
 	"bufio"
 	"errors"
 	"fmt"
@@ -56,6 +58,9 @@ func trParse(p *parser) tree.Node {
 		return &r
 	case "Z":
 		return tree.ZeroNode(uint32(p.num()))
+	case "Y": // a zero-subtree summary that is value-equal to ZeroNode(k) but a distinct object
+		r := tree.ZeroHashes[p.num()]
+		return &r
 	default:
 		panic("parse: bad tree token " + t)
 	}
@@ -181,6 +186,10 @@ func execTrSet(st *State, args []string) string {
 	treeToks := p.toks[start:p.pos]
 	v := trParse(p)
 	before := trDump(n)
+	if g%2 == 0 || len(before)%3 != 0 {
+		n.MerkleRoot(h) // mostly: the original was hashed before the write (memoised roots must not leak into the result)
+		v.MerkleRoot(h)
+	}
 	link, err := n.Setter(tree.Gindex64(g), expand)
 	if err != nil {
 		return trErr(err)
@@ -699,7 +708,34 @@ func genC11Fill(g *Gen, w *bufio.Writer, n int) {
 	}
 }
 
-func genC11(g *Gen, tier string, w *bufio.Writer) {
+// genC11 post-processes the stream: in about a third of the lines the shared zero nodes `Z k`
+// are replaced by value-equal but distinct summary leaves `Y k`.
+func genC11(g *Gen, tier string, out *bufio.Writer) {
+	var buf bytes.Buffer
+	w := bufio.NewWriter(&buf)
+	genC11Inner(g, tier, w)
+	w.Flush()
+	g2 := NewGen(g.U64())
+	for _, line := range strings.Split(buf.String(), "\n") {
+		if line == "" {
+			continue
+		}
+		if strings.Contains(line, " Z ") && !strings.Contains(line, "Z 65") && g2.Intn(3) == 0 {
+			toks := strings.Fields(line)
+			for i := range toks {
+				if toks[i] == "Z" && i+1 < len(toks) && g2.Intn(2) == 0 {
+					if k, err := strconv.Atoi(toks[i+1]); err == nil && k <= 64 {
+						toks[i] = "Y"
+					}
+				}
+			}
+			line = strings.Join(toks, " ")
+		}
+		fmt.Fprintln(out, line)
+	}
+}
+
+func genC11Inner(g *Gen, tier string, w *bufio.Writer) {
 	thorough := tier == "thorough"
 	genC11Boundary(g, w)
 	if thorough {
